@@ -5,3 +5,4 @@ import GM.Debug
 import GM.SelectExec
 import GM.CP
 import GM.Alias
+import GM.Config
